@@ -567,6 +567,23 @@ pub fn run(ctx: &Ctx) -> i32 {
                 }
             }
         }
+        // scriptlet flags: every subset of the three defined bits (the empty set included: Some(empty) is not None), for each kind
+        for k in SCRIPT_KINDS {
+            for bits in 0..8u32 {
+                let mut s = crate::corpus::one_file();
+                s.scripts.insert(k, ScriptSpec { script: "exit 0".into(), flags: Some(bits), prog: None });
+                specs.push((format!("{}_script with flags {:#b}", k, bits), s));
+            }
+        }
+        // files with names that contain dots in every arrangement short of a '..' component
+        {
+            let mut s = BuildSpec::minimal();
+            s.name = "dots".into();
+            for (i, d) in ["/d/notes..txt", "/d/..data/x", "/d/a..b/c", "/d/...", "/d/.../x", "/d/x..", "/d/..x", "./d2/archive..old", "/d/a.b.c", "/d/.hidden."].iter().enumerate() {
+                s.files.push(FileSpec::new(d, Content::Bytes(format!("file {}", i).into_bytes())));
+            }
+            specs.push(("files whose names contain runs of dots".into(), s));
+        }
         // dependencies written as struct literals (the fields are public): every single flag bit, and no flag at all, with and without a version
         for k in DEP_KINDS {
             for bit in 0..=32u32 {
@@ -599,7 +616,7 @@ pub fn run(ctx: &Ctx) -> i32 {
                 },
             }
         }));
-        SubReport::new("value-domains", "A", "attributes with a small value domain, covered completely: every permission value 0…07777 given explicitly for regular files, directories and symbolic links (three packages of 4096 entries; the source files have other permissions); each of the eight dependency kinds × each of the 14 Dependency constructors × 8 names that collide with what the builder generates itself (the package's own name, its arch-qualified name, rpmlib / config names, a user name, an interpreter, the empty name); each dependency kind × a Dependency written as a struct literal with each single flag bit or none × with and without a version: read-back oracle as for the setters (a configuration the builder refuses is not judged)", acc)
+        SubReport::new("value-domains", "A", "attributes with a small value domain, covered completely: every permission value 0…07777 given explicitly for regular files, directories and symbolic links (three packages of 4096 entries; the source files have other permissions); each of the eight dependency kinds × each of the 14 Dependency constructors × 8 names that collide with what the builder generates itself (the package's own name, its arch-qualified name, rpmlib / config names, a user name, an interpreter, the empty name); each scriptlet kind × every subset of the three flag bits (the empty set is Some, not None); files whose names contain runs of dots short of a '..' component; each dependency kind × a Dependency written as a struct literal with each single flag bit or none × with and without a version: read-back oracle as for the setters (a configuration the builder refuses is not judged)", acc)
     };
     // the whole corpus (curated rich configuration with every compression / key, sign/clear histories, payload enumeration)
     let c = crate::corpus::run_corpus(ctx, "corpus", "oracle: read-back of every supplied value", &|sub, it, rank, acc| {
